@@ -85,6 +85,14 @@ CLAIMS["C12"] = {
     "design_ref": "DESIGN.md §5 C12",
 }
 
+CLAIMS["C17"] = {
+    "technique": "static analysis: must-pass-through (avoid-set reachability on the passing/stale edges of each staleness test, loop-iteration form for includes and inherits) in load_binary; writer/reader agreement on the preamble",
+    "text": "Decides the staleness clause for all paths of load_binary: the successful return is reachable only through the passing edge of the source, driver-id, config-id, per-include and per-inherit (source and binary) tests, and no stale edge can reach it; "
+            "check_times reports newer-as-stale; the preamble is written and read in one order; config_id derives from the simul_efun file's mtime only. "
+            "That the loaded program equals what the source compiles to (the first sentence of the property) is behavioural and not decided.",
+    "design_ref": "DESIGN.md §5 C17",
+}
+
 NOT_APPLICABLE = {
     "C18": "Line/trace correctness is a value-level question about run-length tables (encode in the code generator, decode in find_line); no clause of it is visible in the shape of the code, so static analysis gives no verdict (DESIGN.md §6).",
 }
